@@ -30,6 +30,7 @@ CEMI_CHECKED = [0]
 def setup():
     global RECOGNISED
     RECOGNISED = L.recognised_codes()
+    L.POISON = False   # C04 states totality of the single decode; shared mutable results are C05's / C13's subject
     S.setup()
 
 
